@@ -200,7 +200,9 @@ class VFSZip(VFS_Real):
                         {
                             "dirlevel": dirlevel,
                             "filename": filename_,
-                            "pathname": info.filename,
+                            # The transcoded name: its directory part is looked
+                            # up in the cache, which is keyed by transcoded names.
+                            "pathname": filename,
                             "dest": self._readlinkfspath(info.filename),
                         }
                     )
